@@ -49,14 +49,14 @@ Definition member (i : nat) (l : list nat) : bool := existsb (Nat.eqb i) l.
 Definition hops_of (hs : list hop) (done : list nat) : list hop := map (fun i => nth i hs dflt) done.
 
 (* the pool invariant *)
-Definition PInv (hs : list hop) (f0 : fs) (s : pool (res unit) * fs) : Prop :=
+Definition PInvD (hs : list hop) (f0 : fs) (done : list nat) (s : pool (res unit) * fs) : Prop :=
   let '(pl, f) := s in
-  exists done : list nat,
     NoDup done /\ (forall i, In i done -> (i < List.length hs)%nat) /\
     List.length pl = List.length hs /\
     (forall i, (i < List.length hs)%nat -> stage (nth i hs dflt) f (nth i pl (Ret Stuck)) (member i done)) /\
     IndexInv f /\
     (forall b, bshape b -> bucket_at f b = bucket_at f0 b ++ bucket_of hash (hist_records hash (hops_of hs done) b)).
+Definition PInv (hs : list hop) (f0 : fs) (s : pool (res unit) * fs) : Prop := exists done, PInvD hs f0 done s.
 
 (* ---------- the three steps ---------- *)
 Lemma is_dir_mkdirs_keeps f ps p : is_dir f p = true -> is_dir (snd (mkdirs f ps)) p = true.
@@ -192,16 +192,18 @@ Proof. apply hist_records_app. Qed.
 (* ---------- the invariant is kept by every step of every thread ---------- *)
 Lemma PInv_init hs f0 : IndexInv f0 -> PInv hs f0 (map hop_prog hs, f0).
 Proof.
-  intros Hi. exists []. split; [constructor|]. split; [intros i []|]. split; [apply map_length|]. split; [|split; [exact Hi|]].
+  intros Hi. exists []. unfold PInvD. split; [constructor|]. split; [intros i []|]. split; [apply map_length|]. split; [|split; [exact Hi|]].
   - intros i Hi'. cbn [member existsb]. rewrite (nth_indep _ (Ret Stuck) (hop_prog dflt)) by (rewrite map_length; exact Hi').
     rewrite (map_nth hop_prog hs dflt i). constructor.
   - intros b _. cbn [hops_of map hist_records]. unfold bucket_of. cbn. rewrite app_nil_r. reflexivity.
 Qed.
 
-Lemma PInv_step hs f0 s s' : Forall (wf_hop hash) hs -> PInv hs f0 s -> pstep s s' -> PInv hs f0 s'.
+(* the ghost order only ever grows at its end *)
+Lemma PInvD_step hs f0 done s s' :
+  Forall (wf_hop hash) hs -> PInvD hs f0 done s -> pstep s s' -> exists ext, PInvD hs f0 (done ++ ext) s'.
 Proof.
   intros Hwf Hinv Hstep. inversion Hstep as [pre c k post f E1 E2]. subst s s'. clear Hstep.
-  destruct Hinv as [done [Hnd [Hlt [Hlen [Hst [Hi Hb]]]]]].
+  destruct Hinv as [Hnd [Hlt [Hlen [Hst [Hi Hb]]]]].
   set (i0 := List.length pre).
   assert (i0 < List.length hs)%nat as Hi0 by (rewrite <- Hlen, app_length; cbn [List.length]; lia).
   set (h := nth i0 hs dflt).
@@ -226,7 +228,7 @@ Proof.
     change (seq_prog (hop_steps h) tt) with (seq_prog (MkdirAll (parent (hb h)) :: tl (hop_steps h)) tt) in Ep0. rewrite <- Ec1, E in Ep0.
     injection Ep0 as <- <-. subst c1.
     destruct (step_mkdir f (hb h) Hi (hb_shape h)) as [Herr [Hi' [Hdir' [Hbk Hm]]]].
-    exists done. split; [exact Hnd|]. split; [exact Hlt|]. split; [exact Hlen'|]. split; [|split; [exact Hi'|]].
+    exists []. rewrite app_nil_r. split; [exact Hnd|]. split; [exact Hlt|]. split; [exact Hlen'|]. split; [|split; [exact Hi'|]].
     + apply Hothers; [exact Hm|reflexivity|]. rewrite (Hk1 _ Herr), <- Efl. apply St1. exact Hdir'.
     + intros b Hbs. rewrite (Hbk b Hbs). apply Hb. exact Hbs.
   - (* CreateIfMissing *)
@@ -235,7 +237,7 @@ Proof.
     change (seq_prog (tl (hop_steps h)) tt) with (seq_prog (CreateIfMissing (InCache (hb h)) :: tl (tl (hop_steps h))) tt) in Ep0. rewrite <- Ec1, E in Ep0.
     injection Ep0 as <- <-. subst c1.
     destruct (step_create f (hb h) Hi (hb_shape h) Hdir) as [Herr [Hi' [[d Hd] [Hbk Hm]]]].
-    exists done. split; [exact Hnd|]. split; [exact Hlt|]. split; [exact Hlen'|]. split; [|split; [exact Hi'|]].
+    exists []. rewrite app_nil_r. split; [exact Hnd|]. split; [exact Hlt|]. split; [exact Hlen'|]. split; [|split; [exact Hi'|]].
     + apply Hothers; [exact Hm|reflexivity|]. rewrite (Hk1 _ Herr), <- Efl. exact (St2 h _ d Hd).
     + intros b Hbs. rewrite (Hbk b Hbs). apply Hb. exact Hbs.
   - (* Append: the thread takes its place in the serial order *)
@@ -245,7 +247,7 @@ Proof.
     injection Ep0 as <- <-. subst c1.
     destruct (step_append f h d Hi Hwfh Hd) as [Herr [Hi' [Hbk Hm]]].
     assert (~ In i0 done) as Hnotin by (intro Hin; apply member_spec in Hin; congruence).
-    exists (done ++ [i0]). split; [|split; [|split; [exact Hlen'|split; [|split; [exact Hi'|]]]]].
+    exists [i0]. split; [|split; [|split; [exact Hlen'|split; [|split; [exact Hi'|]]]]].
     + apply NoDup_snoc; assumption.
     + intros i Hin. apply in_app_or in Hin as [Hin|[<-|[]]]; [apply Hlt; exact Hin|exact Hi0].
     + apply Hothers; [exact Hm|intros i Hne; apply member_snoc_other; exact Hne|].
@@ -256,8 +258,54 @@ Proof.
   - discriminate.
 Qed.
 
+Lemma PInvD_reach hs f0 done s s' :
+  Forall (wf_hop hash) hs -> PInvD hs f0 done s -> preach s s' -> exists ext, PInvD hs f0 (done ++ ext) s'.
+Proof.
+  intros Hwf Hi Hr. revert done Hi. induction Hr as [s|s1 s2 s3 Hs _ IH]; intros done Hi; [exists []; rewrite app_nil_r; exact Hi|].
+  destruct (PInvD_step hs f0 done s1 s2 Hwf Hi Hs) as [e1 H1]. destruct (IH _ H1) as [e2 H2]. exists (e1 ++ e2). rewrite app_assoc. exact H2.
+Qed.
+
 Lemma PInv_reach hs f0 s s' : Forall (wf_hop hash) hs -> PInv hs f0 s -> preach s s' -> PInv hs f0 s'.
-Proof. intros Hwf Hi Hr. induction Hr as [s|s1 s2 s3 Hs _ IH]; [exact Hi|]. apply IH. exact (PInv_step hs f0 s1 s2 Hwf Hi Hs). Qed.
+Proof. intros Hwf [done Hi] Hr. destruct (PInvD_reach hs f0 done s s' Hwf Hi Hr) as [ext H]. exists (done ++ ext). exact H. Qed.
+
+(* ---------- what a reader can observe: the serial state of the appends so far ---------- *)
+(* a lookup is one step (the read of the bucket file); executed in ANY reachable state of the pool it answers what the
+   serial run of the operations appended so far answers — never a partial record, never a lost write *)
+Lemma perm_wf hs done : Forall (wf_hop hash) hs -> (forall i, In i done -> (i < List.length hs)%nat) -> Forall (wf_hop hash) (hops_of hs done).
+Proof.
+  intros Hwf Hlt. apply Forall_forall. intros h Hh. unfold hops_of in Hh. apply in_map_iff in Hh as [i [<- Hi]].
+  rewrite Forall_forall in Hwf. apply Hwf. apply nth_In. apply Hlt. exact Hi.
+Qed.
+
+Theorem observe_serial_prefix hs f0 done pl f k :
+  IndexInv f0 -> Forall (wf_hop hash) hs -> PInvD hs f0 done (pl, f) ->
+  run (find hash k) f = (Ok (fold_left spec_step (hops_of hs done) (abs_idx hash f0) k), f).
+Proof.
+  intros Hi0 Hwf [Hnd [Hlt [Hlen [Hst [Hi Hb]]]]].
+  pose proof (perm_wf hs done Hwf Hlt) as Hwf'.
+  rewrite (find_run hash f k Hi). f_equal. f_equal.
+  destruct (find_refines_map hash (hops_of hs done) f0 Hi0 Hwf') as [Hi' Hfind].
+  pose proof (Hfind k) as Hf. rewrite (find_run hash _ k Hi') in Hf.
+  assert (abs_idx hash (fold_left (exec_hop hash) (hops_of hs done) f0) k = fold_left spec_step (hops_of hs done) (abs_idx hash f0) k) as Hf' by congruence.
+  rewrite <- Hf'. unfold abs_idx, bucket_bytes.
+  assert (bshape (bucket_path hash k)) as Hbs by (destruct (bucket_path_shape hash k) as [a [b [c E]]]; exists a, b, c; exact E).
+  pose proof (Hb _ Hbs) as Hk. rewrite <- (bucket_language hash (hops_of hs done) f0 _ Hi0 Hwf' Hbs) in Hk. unfold bucket_at in Hk. rewrite Hk. reflexivity.
+Qed.
+
+(* linearisability of lookups: two observations one after the other see serial states of growing prefixes of one order *)
+Theorem observations_monotone hs f0 s1 s2 :
+  IndexInv f0 -> Forall (wf_hop hash) hs ->
+  preach (map hop_prog hs, f0) s1 -> preach s1 s2 ->
+  exists done ext,
+    (forall k, run (find hash k) (snd s1) = (Ok (fold_left spec_step (hops_of hs done) (abs_idx hash f0) k), snd s1)) /\
+    (forall k, run (find hash k) (snd s2) = (Ok (fold_left spec_step (hops_of hs (done ++ ext)) (abs_idx hash f0) k), snd s2)).
+Proof.
+  intros Hi0 Hwf H1 H2. destruct (PInv_init hs f0 Hi0) as [d0 Hd0].
+  destruct (PInvD_reach hs f0 d0 _ s1 Hwf Hd0 H1) as [e1 He1]. destruct (PInvD_reach hs f0 _ s1 s2 Hwf He1 H2) as [e2 He2].
+  exists (d0 ++ e1), e2. destruct s1 as [pl1 f1], s2 as [pl2 f2]. cbn [snd]. split; intros k.
+  - exact (observe_serial_prefix hs f0 _ pl1 f1 k Hi0 Hwf He1).
+  - exact (observe_serial_prefix hs f0 _ pl2 f2 k Hi0 Hwf He2).
+Qed.
 
 (* ---------- the theorem ---------- *)
 Theorem conc_index_serializable hs f0 pl' f' rs :
